@@ -278,7 +278,7 @@ func evalBytes(w int, bj *byteJob) {
 // normalisations of the differential attribution
 const (
 	nTab     = 1 << iota // TABs inside string / raw string literals -> blanks   (cause enumerated by the values family)
-	nEmpty               // empty literals "" and `` -> "x" and `x`             (outside the domain by assumption: the formatter drops them on purpose)
+	nEmpty               // empty literals "" and `` -> "x" and `x`             (cause enumerated by the whole-value family, whole.go)
 	nLitNL               // blanks next to a line break INSIDE a literal removed (cause "literal-blank-at-line-break", reported)
 	nCTab                // TABs inside comments -> blanks                       (cause "comment-with-tab", reported)
 	nComment             // comments removed                                     (cause enumerated by the comment family)
